@@ -366,6 +366,9 @@ def _run_sweep(ctx, progs, per):
     # element shapes x comment layouts x delete / insert at every position x trivia values
     xp = co.expr_product()
     res = pmap(co.expr_product_cases, [xp[i::32] for i in range(32)])
+    # par / unpar of nested expressions squeezed between alphanumerics, then a second edit on the parent expression
+    res += [co.unpar_product_cases()]
+    res += pmap(co.unpar_history_cases, [(p, ctx.rng.randrange(1 << 30), 3) for p in progs[:len(progs) // 2]])
     # unenclosed comma lists that get line continuations when a multi-line slice is put (string literals with '#' on the line)
     res += [co.expr_product_cases(co.linecont_product())]
     # re-indenting insertions (elif -> else: + if) x contents of the re-indented block x docstr option x channel
@@ -432,6 +435,6 @@ def replay(ctx, data):
                 ctx.fail('replay', '_put_src result is not the flat-text splice', w)
         return
     op = w['edit'].get('op')
-    it = (co.run_two_step if op == 'replace2' else co.run_history if op == 'history' else co.run_channels if op == 'channels' else co.run_empty_block if op == 'insert-empty' else co.run_edit)(w['src'], w['edit'])
+    it = (co.run_two_step if op == 'replace2' else co.run_history if op == 'history' else co.run_channels if op == 'channels' else co.run_empty_block if op == 'insert-empty' else co.run_unpar_history if op == 'unpar-history' else co.run_edit)(w['src'], w['edit'])
     for sig, what, wit in co.classify(it):
         ctx.fail(sig, what, w)
